@@ -60,7 +60,7 @@ def run(ck):
         if n:
             _validate(ck, sw, "cover_%d" % size, beh, "transition cover, size %d" % size)
 
-    nsim = 2000 if ck.tier == "quick" else 60000
+    nsim = 2000 if ck.tier == "quick" else 40000
     simsizes = [5, 8, 11, 16] if ck.tier == "quick" else [3, 5, 7, 8, 11, 13, 16, 32]
 
     def sim(arg):
